@@ -184,7 +184,10 @@ func buildShiftMatchingPredicate(sw swamp.Swamp, beaconType swamp.BeaconType, fi
 		candidates := collectBucketCandidates(sw, plan.Hints)
 		keySet = candidateKeySet(candidates)
 		useKeySet = true
-		filterEval = plan.Residual
+		// The candidate set is computed here, before the selection lock is
+		// taken: it is only a fast-reject. The whole filter (indexed leg
+		// included) is evaluated again on the live record under the lock, so
+		// a record that left the indexed value in between is not claimed.
 	}
 
 	if !hasTimeBounds {
